@@ -8,7 +8,10 @@ import (
 
 	"github.com/pip-services3-gox/pip-services3-expressions-gox/calculator"
 	"github.com/pip-services3-gox/pip-services3-expressions-gox/calculator/functions"
+	"github.com/pip-services3-gox/pip-services3-expressions-gox/calculator/parsers"
 	"github.com/pip-services3-gox/pip-services3-expressions-gox/mustache"
+	mparsers "github.com/pip-services3-gox/pip-services3-expressions-gox/mustache/parsers"
+	"github.com/pip-services3-gox/pip-services3-expressions-gox/tokenizers"
 	"github.com/pip-services3-gox/pip-services3-expressions-gox/variants"
 )
 
@@ -22,7 +25,7 @@ func init() {
 			"whose input is not a well-formed sentence evaluated on numbers (malformed text, boundary values, non-ASCII, wrong arity)",
 		NonTrivial: func(seg []Ev) string {
 			e := seg[0]
-			return fmt.Sprint(e["api"], e["input"], e["vars"], e["opts"], e["kind2"])
+			return fmt.Sprint(e["api"], e["input"], e["vars"], e["opts"], e["kind2"], e["toks"])
 		},
 	}
 }
@@ -108,6 +111,41 @@ func execC03(seg []Ev) []Ev {
 			})
 			det = d
 			e["outcome"] = valErr(oc, ok, err)
+		case "tokens":
+			// a parser handed a list of lexical tokens (instead of a text): token lists of any shape - empty, white space only,
+			// braces without names, lone words - end in a result or an error
+			e["kind"] = "erronly"
+			what := toStr(in["kind2"])
+			var toks []*tokenizers.Token
+			var spec []any
+			for _, x := range toList(in["toks"]) {
+				xx := toList(x)
+				toks = append(toks, tokenizers.NewToken(toInt(xx[0]), string(toRunes(xx[1])), 1, 1))
+				spec = append(spec, []any{toInt(xx[0]), cpsR(toRunes(xx[1]))})
+			}
+			e["toks"] = spec
+			if spec == nil {
+				e["toks"] = []any{}
+			}
+			var err error
+			oc, d := guarded(func() {
+				switch what {
+				case "mparse":
+					err = mparsers.NewMustacheParser().ParseTokens(toks)
+				case "morig":
+					err = mparsers.NewMustacheParser().SetOriginalTokens(toks)
+				case "eparse":
+					err = parsers.NewExpressionParser().ParseTokens(toks)
+				default:
+					err = parsers.NewExpressionParser().SetOriginalTokens(toks)
+				}
+			})
+			det = d
+			_ = err
+			e["outcome"] = map[string]string{"ok": "returned", "hang": "hang"}[oc]
+			if e["outcome"] == "" {
+				e["outcome"] = "panic"
+			}
 		case "tokenize":
 			e["kind"] = "valonly"
 			kind := toStr(in["kind2"])
@@ -329,6 +367,25 @@ func genC03(g *Gen) {
 	for _, x := range []string{"a + b", "Hello {{a}}", "{{#a}}x{{/a}}", "plain"} {
 		run("Clear() before Set...", Ev{"api": "expression", "pre": "clear", "input": cps(x), "vars": anyL(c03assignments[0])})
 		run("Clear() before Set...", Ev{"api": "template", "pre": "clear", "input": cps(x)})
+	}
+	// every list of up to three lexical tokens over a small alphabet, handed to both parsers through both token entry points
+	{
+		alpha := [][]any{{tokenizers.Whitespace, cps(" ")}, {tokenizers.Whitespace, cps("\n")}, {tokenizers.Special, cps("text")}, {tokenizers.Symbol, cps("{{")}, {tokenizers.Symbol, cps("}}")}, {tokenizers.Symbol, cps("{{{")},
+			{tokenizers.Symbol, cps("#")}, {tokenizers.Symbol, cps("/")}, {tokenizers.Word, cps("a")}, {tokenizers.Eof, cps("")}, {tokenizers.Unknown, cps("\uffff")}, {tokenizers.Comment, cps("/* c */")},
+			{tokenizers.Integer, cps("1")}, {tokenizers.Symbol, cps("(")}, {tokenizers.Symbol, cps("+")}, {tokenizers.Quoted, cps("'q")}, {tokenizers.Keyword, cps("NOT")}}
+		var rec func(cur []any)
+		rec = func(cur []any) {
+			for _, what := range []string{"mparse", "morig", "eparse", "eorig"} {
+				run("token lists handed to the parsers", Ev{"api": "tokens", "kind2": what, "toks": append([]any{}, cur...), "input": cps("")})
+			}
+			if len(cur) == g.Pick(2, 3) {
+				return
+			}
+			for _, a := range alpha {
+				rec(append(append([]any{}, cur...), a))
+			}
+		}
+		rec(nil)
 	}
 	for _, how := range []string{"panic-string", "panic-int", "panic-error", "nil-deref", "index", "error", "ok"} {
 		for _, x := range []string{"Boom()", "Boom(1)", "1 + Boom(2, 3)", "Min(Boom(1), 2)", "boom(1) IS NULL"} {
